@@ -181,6 +181,7 @@ func (m recoveryMessage) EncodeBinary(w *gob.Encoder) error {
 	}
 	return w.Encode(&recoveryMessageAux{
 		PreparationPayloads: m.preparationPayloads,
+		PreCommitPayloads:   m.preCommitPayloads,
 		CommitPayloads:      m.commitPayloads,
 		ChangeViewPayloads:  m.changeViewPayloads,
 	})
@@ -223,6 +224,12 @@ func (m *recoveryMessage) DecodeBinary(r *gob.Decoder) error {
 	m.preparationPayloads = aux.PreparationPayloads
 	if m.preparationPayloads == nil {
 		m.preparationPayloads = []preparationCompact{}
+	}
+	m.preCommitPayloads = aux.PreCommitPayloads
+	for _, c := range m.preCommitPayloads {
+		if len(c.Data) != 4 {
+			return errors.New("wrong PreCommit data length")
+		}
 	}
 	m.commitPayloads = aux.CommitPayloads
 	if m.commitPayloads == nil {
